@@ -50,7 +50,7 @@ pub fn itranspose(a: &IMat) -> IMat {
     (0..c).map(|j| (0..r).map(|i| a[i][j]).collect()).collect()
 }
 
-fn chol_class_float(base: &Mat, spd_hint: bool) -> (CholClass, f64, f64) {
+pub(crate) fn chol_class_float(base: &Mat, spd_hint: bool) -> (CholClass, f64, f64) {
     if !crate::util::is_symmetric(base) {
         return (CholClass::NotSym, 0.0, 0.0);
     }
